@@ -21,6 +21,7 @@
 #include <stdlib.h>
 #include <string.h>
 #include <sys/mman.h>
+#include <sys/prctl.h>
 #include <sys/stat.h>
 #include <sys/types.h>
 #include <sys/wait.h>
@@ -292,6 +293,7 @@ inline bool parallel_for(Run& run, int64_t n, const std::function<void(int64_t)>
         pid_t p = fork();
         if (p < 0) { perror("fork"); exit(2); }
         if (p == 0) {
+            prctl(PR_SET_PDEATHSIG, SIGKILL);  // never outlive the harness (hard timeouts, crashes of the parent)
             int efd = open(errfile(k).c_str(), O_WRONLY | O_CREAT | O_TRUNC, 0644);
             if (efd >= 0) { dup2(efd, 2); close(efd); }
             run.counters.clear();
